@@ -1,0 +1,6 @@
+//go:build !verif
+
+package util
+
+// VerifPoint is a no-op yield point used only by the verification harness (build tag "verif").
+func VerifPoint(name, key string) {}
